@@ -105,7 +105,12 @@ func (c *Ctx) condAndCallBags(fn *ssa.Function) (conds, calls map[string]int) {
 					arg = sl.X
 					split += lo
 				}
-				conds[fmt.Sprintf("len(%s) >= %d", dT(arg), split)]++
+				desc := dT(arg)
+				if sl, isSl := arg.Type().Underlying().(*types.Slice); isSl && structName(sl.Elem()) == "RuleEntity" {
+					// a list of rules, whichever variable or field holds it
+					desc = "<[]*base.RuleEntity>"
+				}
+				conds[fmt.Sprintf("len(%s) >= %d", desc, split)]++
 			} else if subj, _, ok := nilCheck(cond); ok {
 				conds["nil? "+dT(subj)]++
 			} else if ex, isEx := x.Origin(cond).(*ssa.Extract); isEx {
@@ -128,6 +133,8 @@ func (c *Ctx) condAndCallBags(fn *ssa.Function) (conds, calls map[string]int) {
 				}
 			} else if _, ok := cc.Value.(*ssa.MakeClosure); ok {
 				name = "literal"
+			} else if cc.IsInvoke() && cc.Method.Name() == "Error" && isErrorType(cc.Value.Type()) {
+				name = "" // the text of an error: formatting, like Sprintf("%v", err)
 			} else if _, ok := cc.Value.(*ssa.Builtin); !ok {
 				name = "dynamic"
 			}
